@@ -121,9 +121,6 @@ func run(raw json.RawMessage) (common.Case, error) {
 	}
 	mint, maxt := metas[0].MinTime, metas[len(metas)-1].MaxTime
 	nc2 := downsample.VerifC37TargetChunkCount(mint, maxt, in.Res1, in.Res2, numSamples)
-	if nc2 < 1 || len(acs)/nc2 == 0 {
-		return c, fmt.Errorf("batch size 0 (len=%d numChunks=%d): not run", len(acs), nc2)
-	}
 	metas2, err := downsample.VerifC37DownsampleAggr(acs, mint, maxt, in.Res1, in.Res2)
 	if err != nil {
 		return c, fmt.Errorf("downsampleAggr: %w", err)
